@@ -648,6 +648,7 @@ namespace internal
 				{
 					RowReference rowRef = *iter;
 					MOMO_CHECK(&rowRef.GetColumnList() == mColumnList);
+					rowRef.GetRaw();	// check
 					mRaws.AddBack(RowReferenceProxy::GetRaw(rowRef));
 				}
 			}
@@ -804,6 +805,7 @@ namespace internal
 		template<typename... Items>
 		void pvSort(const Column<Items>&... columns)
 		{
+			VersionKeeper::Check();
 			static const size_t columnCount = sizeof...(columns);
 			std::array<size_t, columnCount> offsets = {{ mColumnList->GetOffset(columns)... }};
 			auto rawLessFunc = [&offsets] (Raw* raw1, Raw* raw2)
@@ -840,6 +842,7 @@ namespace internal
 		template<typename... Items>
 		void pvGroup(const Column<Items>&... columns)
 		{
+			VersionKeeper::Check();
 			static const size_t columnCount = sizeof...(columns);
 			std::array<size_t, columnCount> offsets = {{ mColumnList->GetOffset(columns)... }};
 			auto hashFunc = [&offsets] (Raw* raw)
@@ -898,6 +901,7 @@ namespace internal
 		template<bool includeEqual, typename... Items>
 		size_t pvBinarySearch(const Equality<Items>&... equals) const
 		{
+			VersionKeeper::Check();
 			static const int bound = includeEqual ? -1 : 0;
 			static const size_t columnCount = sizeof...(equals);
 			std::array<size_t, columnCount> offsets =
